@@ -1,3 +1,4 @@
+use crate::architecture::Endian;
 use crate::il::Expression as Expr;
 use crate::il::*;
 use crate::Error;
@@ -1083,14 +1084,25 @@ pub fn lw(
     Ok(())
 }
 
+// The byte lane an unaligned-word access (lwl, lwr, swl, swr) addresses within its aligned
+// word, counted from the least significant byte: vAddr[1:0] xor BigEndianCPU^2.
+fn unaligned_lane(address: &Expr, endian: &Endian) -> Result<Expr, Error> {
+    let byte = Expr::and(address.clone(), expr_const(3, 32))?;
+    match *endian {
+        Endian::Big => Expr::sub(expr_const(3, 32), byte),
+        Endian::Little => Ok(byte),
+    }
+}
+
 pub fn lwl(
     control_flow_graph: &mut ControlFlowGraph,
     instruction: &capstone::Instr,
+    endian: &Endian,
 ) -> Result<(), Error> {
     let detail = details(instruction)?;
 
     // get operands
-    let dst = get_register(detail.operands[0].reg())?.scalar();
+    let rt = get_register(detail.operands[0].reg())?;
     let base = get_register(detail.operands[1].mem().base)?.expression();
     let offset = expr_const(detail.operands[1].mem().disp as u64, 32);
 
@@ -1098,32 +1110,29 @@ pub fn lwl(
         let block = control_flow_graph.new_block()?;
 
         let address = Expr::add(base, offset)?;
+        let lane = unaligned_lane(&address, endian)?;
 
-        // get the number of bits to clear
-        let bytes_to_clear = Expr::sub(
-            expr_const(4, 32),
-            Expr::and(expr_const(3, 32), address.clone())?,
-        )?;
-        let bits_to_clear = Expr::shl(bytes_to_clear, expr_const(3, 32))?;
-
-        // get the number of bytes to shift the result
-        let bytes_to_shift = Expr::and(expr_const(3, 32), address.clone())?;
-        let bits_to_shift = Expr::shl(bytes_to_shift, expr_const(3, 32))?;
-
+        // load the aligned word containing the addressed byte
         let tmp = Scalar::temp(instruction.address, 32);
-        block.load(tmp.clone(), address);
+        block.load(
+            tmp.clone(),
+            Expr::and(expr_const(0xffff_fffc, 32), address)?,
+        );
 
-        // clear the dst register by shifting left then right
-        let dst_expr = Expr::shl(dst.clone().into(), bits_to_clear.clone())?;
-        let dst_expr = Expr::shr(dst_expr, bits_to_clear)?;
+        // the addressed byte and the less significant bytes of the word go to the
+        // top of the register, the low (3 - lane) bytes of the register are kept
+        let shift = Expr::shl(Expr::sub(expr_const(3, 32), lane)?, expr_const(3, 32))?;
+        let keep = Expr::sub(
+            Expr::shl(expr_const(1, 32), shift.clone())?,
+            expr_const(1, 32),
+        )?;
 
-        // zero out the right bits in the loaded word
-        let tmp = Expr::shl(Expr::shr(tmp.into(), bits_to_shift.clone())?, bits_to_shift)?;
+        let expr = Expr::or(
+            Expr::shl(tmp.into(), shift)?,
+            Expr::and(rt.expression(), keep)?,
+        )?;
 
-        // or together
-        let dst_expr = Expr::or(dst_expr, tmp)?;
-
-        block.assign(dst, dst_expr);
+        block.assign(rt.scalar(), expr);
 
         block.index()
     };
@@ -1137,41 +1146,42 @@ pub fn lwl(
 pub fn lwr(
     control_flow_graph: &mut ControlFlowGraph,
     instruction: &capstone::Instr,
+    endian: &Endian,
 ) -> Result<(), Error> {
     let detail = details(instruction)?;
 
     // get operands
-    let dst = get_register(detail.operands[0].reg())?.scalar();
+    let rt = get_register(detail.operands[0].reg())?;
     let base = get_register(detail.operands[1].mem().base)?.expression();
     let offset = expr_const(detail.operands[1].mem().disp as u64, 32);
 
     let block_index = {
         let block = control_flow_graph.new_block()?;
 
-        let address = Expr::sub(Expr::add(base, offset)?, expr_const(3, 32))?;
+        let address = Expr::add(base, offset)?;
+        let lane = unaligned_lane(&address, endian)?;
 
-        // create a bit mask for dst and the loaded result
-        let mask_bytes = Expr::and(address.clone(), expr_const(3, 32))?;
-        let mask_bits = Expr::shl(mask_bytes, expr_const(3, 32))?;
-        let mask_bit = Expr::shl(expr_const(1, 32), mask_bits)?;
-        let mask = Expr::sub(mask_bit, expr_const(1, 32))?;
-
-        // load our word from memory
+        // load the aligned word containing the addressed byte
         let tmp = Scalar::temp(instruction.address, 32);
-        block.load(tmp.clone(), address);
+        block.load(
+            tmp.clone(),
+            Expr::and(expr_const(0xffff_fffc, 32), address)?,
+        );
 
-        // we want to and this word with our mask to remove the high bits
-        let temp = Expr::and(tmp.into(), mask.clone())?;
-
-        // and out the bits we're about to set in dst
-        let dst_expr = Expr::and(
-            dst.clone().into(),
-            Expr::sub(expr_const(0xffff_ffff, 32), mask)?,
+        // the addressed byte and the more significant bytes of the word go to the
+        // bottom of the register, the high lane bytes of the register are kept
+        let shift = Expr::shl(lane, expr_const(3, 32))?;
+        let keep = Expr::shl(
+            expr_const(0xffff_ffff, 32),
+            Expr::sub(expr_const(32, 32), shift.clone())?,
         )?;
 
-        let dst_expr = Expr::or(dst_expr, temp)?;
+        let expr = Expr::or(
+            Expr::shr(tmp.into(), shift)?,
+            Expr::and(rt.expression(), keep)?,
+        )?;
 
-        block.assign(dst, dst_expr);
+        block.assign(rt.scalar(), expr);
 
         block.index()
     };
@@ -2451,6 +2461,7 @@ pub fn sw(
 pub fn swl(
     control_flow_graph: &mut ControlFlowGraph,
     instruction: &capstone::Instr,
+    endian: &Endian,
 ) -> Result<(), Error> {
     let detail = details(instruction)?;
 
@@ -2463,38 +2474,25 @@ pub fn swl(
         let block = control_flow_graph.new_block()?;
 
         let address = Expr::add(base, offset)?;
+        let lane = unaligned_lane(&address, endian)?;
+        let aligned = Expr::and(expr_const(0xffff_fffc, 32), address)?;
 
         // load the value currently in memory
         let tmp = Scalar::temp(instruction.address, 32);
-        block.load(
-            tmp.clone(),
-            Expr::and(expr_const(0xffff_fffc, 32), address.clone())?,
-        );
+        block.load(tmp.clone(), aligned.clone());
 
-        // create a mask for our value
-        let mask_bytes = Expr::and(address.clone(), expr_const(3, 32))?;
-        // we want the opposite of the number of bytes we are storing
-        let mask_bytes = Expr::sub(expr_const(4, 32), mask_bytes)?;
-        let mask_bits = Expr::shl(mask_bytes, expr_const(3, 32))?;
+        // the high (lane + 1) bytes of the register replace the addressed byte and
+        // the less significant bytes of the word
+        let keep = Expr::shl(
+            expr_const(0xffff_ffff, 32),
+            Expr::shl(Expr::add(lane.clone(), expr_const(1, 32))?, expr_const(3, 32))?,
+        )?;
+        let shift = Expr::shl(Expr::sub(expr_const(3, 32), lane)?, expr_const(3, 32))?;
 
-        let mask = Expr::sub(Expr::shl(expr_const(1, 32), mask_bits)?, expr_const(1, 32))?;
-
-        // and the loaded value with our mask
-        // this operation inverts the mask
-        let tmp = Expr::and(Expr::sub(expr_const(0xffff_ffff, 32), mask)?, tmp.into())?;
-
-        // figure out how many bits we should shift our value right
-        let shift_bytes = Expr::and(address.clone(), expr_const(3, 32))?;
-        let shift_bits = Expr::shl(shift_bytes, expr_const(3, 32))?;
-
-        // shift the value right
-        let rt = Expr::shr(rt, shift_bits)?;
-
-        // or them together
-        let expr = Expr::or(tmp, rt)?;
+        let expr = Expr::or(Expr::and(tmp.into(), keep)?, Expr::shr(rt, shift)?)?;
 
         // store it back in memory
-        block.store(Expr::and(expr_const(0xffff_fffc, 32), address)?, expr);
+        block.store(aligned, expr);
 
         block.index()
     };
@@ -2508,6 +2506,7 @@ pub fn swl(
 pub fn swr(
     control_flow_graph: &mut ControlFlowGraph,
     instruction: &capstone::Instr,
+    endian: &Endian,
 ) -> Result<(), Error> {
     let detail = details(instruction)?;
 
@@ -2519,32 +2518,26 @@ pub fn swr(
     let block_index = {
         let block = control_flow_graph.new_block()?;
 
-        let address = Expr::sub(Expr::add(base, offset)?, expr_const(3, 32))?;
+        let address = Expr::add(base, offset)?;
+        let lane = unaligned_lane(&address, endian)?;
+        let aligned = Expr::and(expr_const(0xffff_fffc, 32), address)?;
 
-        // create a bit mask for dst and the loaded result
-        let mask_bytes = Expr::and(address.clone(), expr_const(3, 32))?;
-        let mask_bits = Expr::shl(mask_bytes, expr_const(3, 32))?;
-        let mask_bit = Expr::shl(expr_const(1, 32), mask_bits)?;
-        let mask = Expr::sub(mask_bit, expr_const(1, 32))?;
-
-        // load our word from memory
+        // load the value currently in memory
         let tmp = Scalar::temp(instruction.address, 32);
-        block.load(tmp.clone(), address.clone());
+        block.load(tmp.clone(), aligned.clone());
 
-        // zero out the words we're about to set in dst
-        let dst_expr = Expr::and(
-            tmp.into(),
-            Expr::sub(expr_const(0xffff_ffff, 32), mask.clone())?,
+        // the low (4 - lane) bytes of the register replace the addressed byte and
+        // the more significant bytes of the word
+        let shift = Expr::shl(lane, expr_const(3, 32))?;
+        let keep = Expr::sub(
+            Expr::shl(expr_const(1, 32), shift.clone())?,
+            expr_const(1, 32),
         )?;
 
-        // zero out the bits we're not setting in rt
-        let rt = Expr::and(rt, mask)?;
-
-        // or the two together
-        let dst_expr = Expr::or(dst_expr, rt)?;
+        let expr = Expr::or(Expr::shl(rt, shift)?, Expr::and(tmp.into(), keep)?)?;
 
         // store it back in memory
-        block.store(address, dst_expr);
+        block.store(aligned, expr);
 
         block.index()
     };
